@@ -26,6 +26,8 @@ type Engine struct {
 	globalInit map[*ssa.Global]*globalInit
 	coverReturns bool // also check that every return is reachable under the contract (thorough tier)
 	masks        map[string]Expr // open known findings of the property being checked that carry a mask
+	initOnly      map[string]bool
+	writtenFields map[string]bool
 	srcCache  map[string][]byte
 	posNodes  map[*ssa.Function]map[token.Pos]ast.Node
 	fatals    []string
